@@ -305,10 +305,23 @@ func (m *monitor) checkValidation(p *gPipe, name string) *supervisor.Spec {
 	return nil
 }
 
-// errHead keeps the part of a validation error that names the reason, without the
-// generated names.
+// errHead reduces a validation error to the reason it names (no generated names), so
+// that the signature of a wrongly rejected spec is stable.
 func errHead(err error) string {
 	s := err.Error()
+	for _, c := range []struct{ needle, class string }{
+		{"target filter", "target-not-found"},
+		{"duplicated filter name/alias", "duplicated-name-or-alias"},
+		{"duplicated filter name", "duplicated-filter-name"},
+		{"is not in", "result-not-declared"},
+		{"built-in", "reserved-name"},
+		{"not found", "filter-or-kind-not-found"},
+		{"jsonschemaErrs", "jsonschema"},
+	} {
+		if strings.Contains(s, c.needle) {
+			return c.class
+		}
+	}
 	if len(s) > 60 {
 		s = s[:60]
 	}
